@@ -161,7 +161,7 @@ def run(ctx, report):
     report.not_decided = ('behaviour of test_set on concrete trees beyond the guard shape; completeness of matching (a successful sub-match '
                           'returning an empty dict is treated as failure in some branches: makes matching incomplete, which the property allows).')
 
-    R1 = report.rule('C16.D1', 'get_r/get_w child coverage per node class', floor=12)
+    R1 = report.rule('C16.D1', 'get_r child coverage per node class', floor=8)
     for c in NODE_CLASSES:
         meths = M.methods[c]
         cdef = mod.cls(c)
@@ -190,74 +190,20 @@ def run(ctx, report):
                     R1.violation(c + '.get_r', '%s.get_r:%s:mem_read' % (c, f),
                                  '%s.get_r does not forward %s when recursing into %s: %s' % (c, mr, f, norm(call)), where(mod, call))
                     bad = True
-        rets = [n for n in ast.walk(fn) if isinstance(n, ast.Return)]
-        if c == 'ExprId':
-            if not all(u(r.value) in ('set([self])', '{self}', 'set((self,))') for r in rets):
-                R1.violation(c + '.get_r', 'ExprId.get_r:self', 'ExprId.get_r does not return {self}', where(mod, fn))
-                bad = True
-        if c == 'ExprMem':
-            def mentions_cell(e):
-                return any(isinstance(n, ast.Name) and n.id == 'self' and not isinstance(getattr(n, '_parent', None), ast.Attribute) for n in ast.walk(e))
-            for r in rets:
-                srcs = [r.value]
-                if isinstance(r.value, ast.Name):
-                    # the returned local: every value it was built from in this function
-                    srcs = [a.value for a in ast.walk(fn) if isinstance(a, ast.Assign) and u(a.targets[0]) == r.value.id]
-                if not any(mentions_cell(e) for e in srcs):
-                    R1.violation(c + '.get_r', 'ExprMem.get_r:self:' + norm(r), 'ExprMem.get_r return omits the memory cell itself: %s' % norm(r), where(mod, r))
-                    bad = True
-            # the recursion into the address must be on the mem_read path
-            ifs = [n for n in ast.walk(fn) if isinstance(n, ast.If) and u(n.test) == mr]
-            if len(ifs) != 1:
-                raise AnalysisError('ExprMem.get_r branch structure changed')
-            segcalls = [n for s_ in ifs[0].body for n in ast.walk(s_) if isinstance(n, ast.Call) and u(n.func) == 'self.segm.get_r' and mr in [u(a) for a in n.args]]
-            if segcalls:
-                R1.ok('ExprMem.get_r:segm', sample='ExprMem.get_r(mem_read=True) includes the read set of an expression-valued segment selector')
-            else:
-                R1.violation('ExprMem.get_r:segm', 'ExprMem.get_r:segm', 'the segment selector of a memory operand is not in its read set', where(mod, fn),
-                             witness="'mov eax, fs:[eax]' does not read fs")
-            if not any(meth == 'get_r' and f == 'arg' and any(n is call for s in ifs[0].body for n in ast.walk(s))
-                       for f, meth, call in mi.calls):
-                R1.violation(c + '.get_r', 'ExprMem.get_r:arg:branch', 'address identifiers are not reported when mem_read is requested', where(mod, fn))
-                bad = True
+        # (what each class returns for itself -- {self} for identifiers, the cell and, on request, its address for memory -- is decided by evaluation: C16.D5)
         if not bad:
             R1.ok(c + '.get_r', sample='%s.get_r recurses into %s' % (c, sorted(f for f in mi.recursed if 'get_r' in mi.recursed[f])))
     aff_reads_rule(ctx, R1, mod, M)
-    # get_w
-    gw = M.methods['ExprAff'].get('get_w')
-    if gw is None:
-        R1.violation('ExprAff.get_w', 'ExprAff.get_w:missing', 'ExprAff has no get_w', where(mod, mod.cls('ExprAff')))
-    else:
-        rets = [n for n in ast.walk(gw.fn) if isinstance(n, ast.Return)]
-        good = rets and all('self.dst' in u(r.value) and 'self.src' not in u(r.value) for r in rets)
-        if good:
-            R1.ok('ExprAff.get_w', sample='ExprAff.get_w returns ' + ' | '.join(u(r.value) for r in rets))
-        else:
-            R1.violation('ExprAff.get_w', 'ExprAff.get_w', 'written set of an assignment does not name its destination: %s'
-                         % [u(r.value) for r in rets], where(mod, gw.fn))
-    for c in ('ExprId', 'ExprMem'):
-        g = M.methods[c].get('get_w')
-        rets = [n for n in ast.walk(g.fn) if isinstance(n, ast.Return)] if g else []
-        if rets and all(u(r.value) in ('set([self])', '{self}') for r in rets):
-            R1.ok(c + '.get_w', sample='%s.get_w returns {self}' % c)
-        else:
-            R1.violation(c + '.get_w', c + '.get_w', '%s.get_w does not return {self}' % c, where(mod, g.fn if g else mod.cls(c)))
-    g = M.methods['ExprSlice'].get('get_w')
-    if g and 'get_w' in g.recursed.get('arg', set()):
-        R1.ok('ExprSlice.get_w', sample='ExprSlice.get_w delegates to arg.get_w()')
-    else:
-        R1.violation('ExprSlice.get_w', 'ExprSlice.get_w', 'ExprSlice.get_w does not name the sliced destination', where(mod, mod.cls('ExprSlice')))
-    # get_expr_ids through visit
-    gei = mod.func('get_expr_ids')
-    gv = mod.func('get_expr_ids_visit')
-    p0 = gei.args.args[0].arg
-    uses_visit = any(isinstance(n, ast.Call) and u(n.func) == p0 + '.visit' for n in ast.walk(gei))
-    adds = any(isinstance(n, ast.Call) and u(n.func).endswith('.add') for n in ast.walk(gv)) and \
-        any(_is_inst(n.test, gv.args.args[0].arg) == 'ExprId' for n in ast.walk(gv) if isinstance(n, ast.If))
-    if uses_visit and adds:
-        R1.ok('get_expr_ids', sample='get_expr_ids collects ExprId nodes through visit')
-    else:
-        R1.violation('get_expr_ids', 'get_expr_ids', 'get_expr_ids no longer collects identifiers through visit', where(mod, gei))
+    # (get_w of assignments, identifiers, memory cells and slices, and get_expr_ids: decided by evaluation, C16.D5)
+
+    from .. import exprobj
+    R5 = report.rule('C16.D5', 'get_r evaluated from the source on the expression family (mem_read False and True): the set contains every identifier and memory cell with a WITNESSED '
+                     'influence on the value (two valuations differing only there give different values), the address and selector of a store; get_w of an assignment names its destination; '
+                     'get_size gives the width', floor=60)
+    exprobj.emit_law(R5, ctx, 'get_r')
+    exprobj.emit_law(R5, ctx, 'get_w')
+    exprobj.emit_law(R5, ctx, 'get_size')
+    exprobj.emit_law(R5, ctx, 'get_expr_ids')
 
     R4 = report.rule('C16.D4', 'node equality is exact (a repeated wildcard is checked with ==, read sets are Python sets of nodes): shared with C15.D1', floor=8)
     from .c15 import eq_rule
@@ -532,7 +478,7 @@ def match_eval_rule(ctx, R, mod):
 MUTANTS = [
     ('test-set-eq-shortcut-hoisted', 'miasmx/expression/expression.py', "    if not v in tks:\n        # (a successful match returns the bindings, even when there are none)\n        if e == v:\n            return result\n        return False\n", "    if e == v:\n        return result\n    if not v in tks:\n        return False\n", 'C16.D2'),
     ('aff-getr-src-only', 'miasmx/expression/expression.py', "            r = r.union(self.dst.arg.get_r(mem_read))\n", "", 'C16.D1'),
-    ('mem-getr-no-segm', 'miasmx/expression/expression.py', "            if isinstance(self.segm, Expr):\n                r = r.union(self.segm.get_r(mem_read))\n            return r", "            return r", 'C16.D1'),
+    ('mem-getr-no-segm', 'miasmx/expression/expression.py', "            if isinstance(self.segm, Expr):\n                r = r.union(self.segm.get_r(mem_read))\n            return r", "            return r", 'C16.D5'),
     ('cond-get_r-skip', 'miasmx/expression/expression.py',
      'out=self.cond.get_r(mem_read).union(self.src1.get_r(mem_read)).union(self.src2.get_r(mem_read))',
      'out=self.src1.get_r(mem_read).union(self.src2.get_r(mem_read))', 'C16.D1'),
@@ -541,7 +487,7 @@ MUTANTS = [
      '            r = r.union(a.get_r(mem_read))\n        return r\n    def get_w(self):\n        raise ValueError',
      '            r = r.union(a.get_r())\n        return r\n    def get_w(self):\n        raise ValueError', 'C16.D1'),
     ('aff-get_w-src', 'miasmx/expression/expression.py',
-     '            return self.dst.get_w()', '            return self.src.get_w()', 'C16.D1'),
+     '            return self.dst.get_w()', '            return self.src.get_w()', 'C16.D5'),
     ('match-slice-bounds', 'miasmx/expression/expression.py',
      '        if e.start != m.start or e.stop != m.stop:\n            return False\n', '        if e.start != m.start:\n            return False\n', 'C16.D2'),
     ('match-mem-size', 'miasmx/expression/expression.py',
